@@ -43,13 +43,14 @@ def run(tier, scratch, drv, only_cases=None):
                                                                    "seed": vlib.seed() * 10 + rep}})
         cases.append({"n": len(cases) + 1, "cfg": {"transport": "tcp", "fault": "none", "moment": "ping", "seed": vlib.seed()}})
         cases.append({"n": len(cases) + 1, "cfg": {"transport": "tcp", "fault": "none", "moment": "srvping", "seed": vlib.seed()}})
+        cases.append({"n": len(cases) + 1, "cfg": {"transport": "tcp", "fault": "vanish", "moment": "idle", "seed": vlib.seed()}})
         for st in ("finishing", "finished", "failed", "new", "negotiating", "negotiating-empty", "authenticating"):
             cases.append({"n": len(cases) + 1, "cfg": {"transport": "tcp", "fault": st, "moment": "handshake",
                                                        "seed": vlib.seed()}})
     else:
         cases = only_cases
         res["model"] = {}
-    iso = [c for c in cases if c["cfg"]["moment"] in ("handshake", "ping", "srvping")]
+    iso = [c for c in cases if c["cfg"]["moment"] in ("handshake", "ping", "srvping") or c["cfg"]["fault"] == "vanish"]
     cp = os.path.join(scratch, "cli_cases_%d.ndjson" % len(cases))
     with open(cp, "w") as f:
         for c in cases:
